@@ -38,7 +38,8 @@ def make(spec):
         fr.append(f)
     kw['positions'] = np.array(fr).dot(cell)
     kw['cell'] = cell
-    kw['charges'] = [round(rnd.uniform(-1.2, 1.2), 3) for _ in range(n)]
+    # three-decimal charges, six-decimal (fitted) charges and tiny ones, alternating from case to case
+    kw['charges'] = [round(rnd.uniform(-1.2, 1.2), 3 if spec['seed'] % 2 else 6) if (i + spec['seed']) % 4 else 3.1e-05 for i in range(n)]
     if spec.get('terms') and n >= 4:
         kw.update(bonds=[(0, 1), (2, 1), (3, 2)], bond_types=[0, 1, 2], angles=[(0, 1, 2), (3, 2, 1)], angle_types=[0, 1],
                   dihedrals=[(0, 1, 2, 3)], dihedral_types=[0], impropers=[(1, 0, 2, 3)] if spec.get('impropers') else [], improper_types=[0] if spec.get('impropers') else [])
